@@ -394,12 +394,12 @@ MANIFEST_ENTRY = {
             "convolution algorithm equals the default one (D = 1, 2, 3, all sizes / strides); the control grid covers every sample "
             "and is minimal (all m, s >= 1) and control point k lies at image index (k-1)*stride (origin / spacing traced from "
             "cubic_bspline_control_point_grid); the subdivision stencils satisfy the two-scale relation and subdivision / FFD grid "
-            "refinement preserves the spline (1-D, all lengths; repeated refinement by induction). Tie: Gen/BSpline.v is regenerated "
+            "refinement preserves the spline (1-D all lengths, repeated refinement by induction; D = 2, 3 along any axis). Tie: Gen/BSpline.v is regenerated "
             "from bspline.py / kernels.py by symbolic tracing on every run (weights, B pieces, stencils, size formula; the index glue of "
             "evaluate_cubic_bspline is checked symbolically against the closed form on small sizes), and the executable model is "
             "compared inside Coq with the implementation on generated inputs.",
-    "note": "Partial: subdivision / refinement theorems are 1-D (the per-axis composition in D > 1 is checked symbolically by the "
-            "translator and numerically); the N-D default algorithm's separable passes are tied to the closed form by the translator's "
+    "note": "Partial: repeated refinement and the direct-subdivision statement are 1-D, single-axis refinement is proved for D = 2, 3 "
+            "(C14_refine_preserves_2d/3d; several axes = composition, checked symbolically by the translator and numerically); the N-D default algorithm's separable passes are tied to the closed form by the translator's "
             "symbolic check + correspondence, not by a Coq proof; torch.arange(0,1,1/s) float behaviour (breaks at stride 49, outside the "
             "property's range) and float32 rounding are outside the model. Repaired in /repo (98fa26a, 0a33d67, c621c1b): control point grid spacing, 1-D subdivide, bspline-mode keys -- now covered by C14_control_point_placement, the 1-D subdivision correspondence and unsorted keys in the sderiv cases.",
 }
